@@ -505,6 +505,29 @@ def canonical_keys_rule(ctx, rule: str) -> None:
                   f"`{unparse(y)}` reached when {r.to_dnf()}", loc=ge.loc(y), witness={"entries": ["docs/*.md", "./docs/install.md"]})
     if n_glob == 0 and not any(f.rule.endswith("/" + rule) for f in ctx.findings):
         ctx.floor(rule, "canonical glob-match yields", n_glob, 1)
+    # every file the glob finds is configured: the hit list is not filtered between the glob call and the yield
+    for gv in sorted(glob_vars):
+        defs = [(st, v) for st, v in shapes.local_defs(ge, gv)]
+        refilter = [st for st, v in defs if v is not None and not any(isinstance(c, ast.Call) and isinstance(c.func, ast.Attribute) and c.func.attr in ("glob", "rglob") for c in ast.walk(v))]
+        removing = [c for c in ast.walk(ge.node) if isinstance(c, ast.Call) and isinstance(c.func, ast.Attribute) and unparse(c.func.value) == gv and c.func.attr in ("remove", "pop", "clear")]
+        globdef = [v for st, v in defs if v is not None and st not in refilter]
+        filtered_at_source = [v for v in globdef if isinstance(shapes.inline(ge, v, ctx.prog), (ast.ListComp, ast.GeneratorExp, ast.SetComp)) and shapes.inline(ge, v, ctx.prog).generators[0].ifs]
+        culprit = (refilter or removing or filtered_at_source or [None])[0]
+        ctx.check(rule, culprit is None, f"glob expansion: every hit of `{gv}` is yielded (the hit list is not filtered)",
+                  "config._iter_glob_expanded_file_patterns: files found by a configured glob are dropped before they are configured",
+                  (f"`{unparse(culprit)[:100]}`: files matched by the configured glob (e.g. below a dot-directory such as .github/, or the hidden "
+                   f"config file .bumpver.toml itself) silently keep the old version while the update succeeds") if culprit is not None else "",
+                  loc=ge.loc(culprit) if culprit is not None else ge.loc(), witness={"glob": "**/*.md", "dropped": ".github/PULL_REQUEST_TEMPLATE.md"})
+    # ... and the yield itself is unconditional inside the loop over the hits
+    for y in ys:
+        lps = shapes.enclosing_loops(ge, y)
+        inner = [l for l in lps if isinstance(l, ast.For) and isinstance(l.iter, ast.Name) and l.iter.id in glob_vars]
+        if inner:
+            conds = [n for n in ast.walk(inner[-1]) if isinstance(n, (ast.If, ast.Continue, ast.Break)) and any(x is y for x in ast.walk(inner[-1]))]
+            skipping = [n for n in conds if isinstance(n, (ast.Continue, ast.Break)) or (isinstance(n, ast.If) and any(x is y for x in ast.walk(n)))]
+            ctx.check(rule, not skipping, "glob expansion: each hit is yielded unconditionally",
+                      "config._iter_glob_expanded_file_patterns: a file found by a configured glob can be skipped",
+                      f"`{unparse(skipping[0])[:80]}`" if skipping else "", loc=ge.loc(skipping[0]) if skipping else ge.loc())
 
 
 def self_pattern_rule(ctx, rule: str) -> None:
